@@ -76,8 +76,9 @@ def wellformed(m, expect_names=None) -> list:
                 stray = [x for x in want if x not in names]
                 if stray:
                     out.append('constraint %d names %r, which are not features of the model it belongs to' % (ci, stray))
-            if expect_names is not None and not set(want) <= set(expect_names[ci] if isinstance(expect_names, list) and ci < len(expect_names) else want):
-                out.append('constraint %d: names %r, document wrote %r' % (ci, want, expect_names[ci]))
+            if expect_names is not None and ci < len(expect_names) and not any(o in ('SUM', 'AVG', 'LEN', 'FLOOR', 'CEIL') for o in ops):
+                if got != sorted(expect_names[ci]):
+                    out.append('constraint %d: get_features() %r, the document names the features %r' % (ci, got, sorted(expect_names[ci])))
     return out
 
 
@@ -137,7 +138,7 @@ def wf_fide(shape, cards, code) -> bool:
 def wf_fide_ref(shape, cards, code) -> bool:
     n = R.n_features(shape)
     names = ['F%d' % i for i in range(n)]
-    trees = [c09.c05_rename(t, names) for t in c09.FIDE_CTCS[code]] if n >= 2 else []
+    trees = [c09.c05_rename(t, names) for t in c09.fide_ctcs(n)[code % len(c09.fide_ctcs(n))]] if n >= 2 else []
     doc = c09.fide_emit(shape, cards, names, [False] * n, {'mandatory_false': 1, 'graphics': 1, 'description': 1}, trees)
     return wf(c09.fide_read(doc))
 
@@ -145,7 +146,7 @@ def wf_fide_ref(shape, cards, code) -> bool:
 def wf_glencoe_ref(shape, cards, code) -> bool:
     n = R.n_features(shape)
     names = ['F%d' % i for i in range(n)]
-    trees = c09.GL_CTCS[code] if n >= 2 else []
+    trees = c09.gl_ctcs(n, code)
     d = c09.glencoe_emit(shape, cards, names, {'ids_differ': 1, 'reverse_children': 1}, trees)
     rd = GlencoeReader('unused')
     return wf(FeatureModel(rd._parse_tree(None, d['tree'], d['features']), rd._parse_constraints(d['constraints'], d['features'])))
@@ -190,7 +191,14 @@ def file_models(shape, cards, code):
         trees = c04.CTCS[code % len(c04.CTCS)] if n >= 3 else []
         mu = uvlio.make(shape, cards, trees=trees, attrs=[(0, 'cost', 3), (n - 1, 'cost', 1)])
         UVLWriter(path('a.uvl'), mu).transform()
-        out.append(('uvl', UVLReader(path('a.uvl')).transform()))
+        from . import c18
+        out.append(('uvl', UVLReader(path('a.uvl')).transform(), [c18.names_of(t) for t in trees]))
+        # the same model as a document of the reference emitter (string literals, quoted identifiers, ...)
+        if n >= 3:
+            names4, abstract4, types4, fcards4, attrs4, trees4 = c04.payload(shape, code % len(c04.CTCS))
+            with open(path('ref.uvl'), 'w', encoding='utf-8') as fh:
+                fh.write(c04.emit(shape, cards, names4, abstract4, types4, fcards4, attrs4, trees4, {'quote': code % 2 == 0, 'parens': code % 3 == 0}))
+            out.append(('uvl-ref', UVLReader(path('ref.uvl')).transform(), [c18.names_of(t) for t in trees4]))
         if cards in c06.fragment_cards(shape) and n >= 2:
             names = c06.NAMES[:n]
             at = [(0, 'cost', ('range', 0, 5), '1', '0')]
@@ -200,7 +208,7 @@ def file_models(shape, cards, code):
         if c08.in_fragment_shape(shape) and cards in c09.glencoe_fragment_cards(shape):
             import json as _json
             with open(path('ref.gfm.json'), 'w', encoding='utf-8') as fh:
-                _json.dump(c09.glencoe_emit(shape, cards, ['F%d' % i for i in range(n)], {'ids_differ': 1}, c09.GL_CTCS[code % len(c09.GL_CTCS)] if n >= 2 else []), fh)
+                _json.dump(c09.glencoe_emit(shape, cards, ['F%d' % i for i in range(n)], {'ids_differ': 1}, c09.gl_ctcs(n, code)), fh)
             out.append(('glencoe-ref', GlencoeReader(path('ref.gfm.json')).transform()))
         names = ['F%d' % i for i in range(n)]
         ctcs = [('requires', n - 1, 0)] if n >= 2 else []
@@ -217,8 +225,9 @@ def replay_files(shape, cards, code):
     except Exception as exc:
         return ['reader/writer raises %s: %s (shape %s cards %r)' % (type(exc).__name__, exc, R.shape_str(shape), cards)]
     out = []
-    for label, m in models:
-        for b in wellformed(m):
+    for entry in models:
+        label, m = entry[0], entry[1]
+        for b in wellformed(m, entry[2] if len(entry) > 2 else None):
             out.append('%s reader: %s (shape %s cards %r code %d)' % (label, b, R.shape_str(shape), cards, code))
     return out
 
